@@ -1626,6 +1626,25 @@ def number_corpus():
     return cs
 
 
+def lexeme_corpus():
+    """every map key and every string value of the generator's vocabularies (YAML / TOML tokens as text: yes, null, ~,
+    1.0, 0x10, leading / trailing blanks, quotes, #, :, non-ASCII, empty key, multi-line) in ONE fixed document each,
+    as map keys, as string values of a map, as list elements and as a struct member: keys and strings are data"""
+    T = [F("M", Mp(P("string"))), F("L", Sl(P("string"))), F("K", Mp(Sl(P("string"))), O(opt=True)), F("S", P("string"), O(opt=True))]
+    half = len(STRINGS) // 2
+    d1 = dm(("M", dm(*[(k, ds(STRINGS[i % len(STRINGS)])) for i, k in enumerate(MAP_KEYS)])), ("L", dl(*[ds(x) for x in STRINGS[:half]])),
+            ("S", ds(" lead and trail ")))
+    d2 = dm(("M", dm(*[(k, ds(k)) for k in MAP_KEYS[::-1]])), ("L", dl(*[ds(x) for x in STRINGS[half:]])),
+            ("K", dm(*[(k, dl(ds(k), ds(""))) for k in MAP_KEYS[:8]])))
+    g = Gen(None, "quick")
+    cs = []
+    for i, d in enumerate((d1, d2)):
+        cs.append({"kind": "load", "tag": "lexemes-%d" % i, "type": T, "doc": d, "env": None,
+                   "doc2": dm(*[(kv["k"].upper() if i == 0 else kv["k"].lower(), kv["v"]) for kv in d["m"]])})
+        cs.append({"kind": "mfmt", "tag": "lexemes-mfmt-%d" % i, "type": T, "doc": d, "doc2": None, "env": None})
+    return cs
+
+
 def null_corpus():
     """documents WITH nulls, JSON and YAML only (TOML has no null, so they are outside the three-format quantifier):
     the executor witness of Props.yaml_null_refuted (JSON null is 'absent', YAML null arrives as the string "") and
@@ -1888,7 +1907,7 @@ class C17(Property):
                  "doc2": dm(("VALUE", dm(("first", dm(("User", dm(("user", ds("u")))))))), ("l", dl(dm(("User", dm(("User", ds("w")))))))),
                  "env": None},
             ]
-        cs = spelling_corpus() + number_corpus() + cs + raw_corpus() + bad_corpus() + null_corpus()
+        cs = spelling_corpus() + number_corpus() + cs + raw_corpus() + bad_corpus() + null_corpus() + lexeme_corpus()
         # aliasing witnesses (seeded change C17-4): two entries, two cells
         for kind, key in (("std", "limits"), ("load", "Limits"), ("mfmt", "Limits")):
             cs.append({"kind": kind, "type": [F(key, Mp(Ptr(P("int")))), F("rates", Mp(Mp(Ptr(P("float64")))), None if kind == "std" else O(opt=True))],
